@@ -911,22 +911,69 @@ func (t *Typechecker) checkFieldAccess(Lhs *ast.Ident, originalType ddptypes.Typ
 		return ddptypes.VoidType{}
 	}
 
-	// if the type was imported, check for public/private fields
-	if structDecl, exists, _ := t.CurrentTable.LookupDecl(structType.Name); exists {
-		structDecl := structDecl.(*ast.StructDecl)
-		if structDecl.Mod != t.Module {
-			for _, field := range structDecl.Fields {
-				if field.Name() == Lhs.Literal.Literal {
-					if field, ok := field.(*ast.VarDecl); ok && !field.IsPublic {
-						t.errExpr(ddperror.TYP_PRIVATE_FIELD_ACCESS, Lhs, "Das Feld %s der Struktur %s ist nicht öffentlich", Lhs.Literal.Literal, originalType.String())
-					}
-					break
+	// if the type was declared in another module, check for public/private fields
+	if structDecl := t.findStructDecl(structType); structDecl != nil && structDecl.Mod != t.Module {
+		for _, field := range structDecl.Fields {
+			if field.Name() == Lhs.Literal.Literal {
+				if field, ok := field.(*ast.VarDecl); ok && !field.IsPublic {
+					t.errExpr(ddperror.TYP_PRIVATE_FIELD_ACCESS, Lhs, "Das Feld %s der Struktur %s ist nicht öffentlich", Lhs.Literal.Literal, originalType.String())
 				}
+				break
 			}
 		}
 	}
 
 	return fieldType
+}
+
+// finds the declaration of a struct type: in the current scope, or,
+// if the type itself was not imported (only a variable of that type) or its name is shadowed,
+// in the modules imported (transitively) by the current module
+func (t *Typechecker) findStructDecl(structType *ddptypes.StructType) *ast.StructDecl {
+	isDeclOf := func(decl ast.Declaration) (*ast.StructDecl, bool) {
+		structDecl, ok := decl.(*ast.StructDecl)
+		if !ok {
+			return nil, false
+		}
+		declType := ddptypes.GetUnderlying(structDecl.Type)
+		if declType == ddptypes.Type(structType) {
+			return structDecl, true
+		}
+		// instantiations of a generic struct belong to the declaration of the generic struct
+		generic, _ := ddptypes.InstantiatedFrom(structType)
+		return structDecl, generic != nil && declType == ddptypes.Type(generic)
+	}
+
+	if decl, exists, _ := t.CurrentTable.LookupDecl(structType.Name); exists {
+		if structDecl, ok := isDeclOf(decl); ok {
+			return structDecl
+		}
+	}
+
+	visited := make(map[*ast.Module]struct{}, 8)
+	var search func(mod *ast.Module) *ast.StructDecl
+	search = func(mod *ast.Module) *ast.StructDecl {
+		if _, ok := visited[mod]; ok || mod == nil {
+			return nil
+		}
+		visited[mod] = struct{}{}
+		for _, stmt := range mod.Ast.Statements {
+			if declStmt, ok := stmt.(*ast.DeclStmt); ok {
+				if structDecl, ok := isDeclOf(declStmt.Decl); ok {
+					return structDecl
+				}
+			}
+		}
+		for _, imprt := range mod.Imports {
+			for _, imported := range imprt.Modules {
+				if structDecl := search(imported); structDecl != nil {
+					return structDecl
+				}
+			}
+		}
+		return nil
+	}
+	return search(t.Module)
 }
 
 // reports wether the given type from this module of the given table is public
